@@ -108,6 +108,7 @@ OBLIGATIONS = [
     native("n_c08_kdata_windows", ["C08"], "C08.kdata.windows", "KData::from(&EnergyProps)", EN + "n_c08_kdata_windows"),
     native("n_c08_kdata_bridges", ["C08"], "C08.kdata.bridges", "KData::from(&EnergyProps)", EN + "n_c08_kdata_bridges"),
     native("n_c11_poly", ["C11"], "C11.poly", "Polygon::area / Polygon::perimeter", RN + "n_c11_poly"),
+    native("n_c11_poly_large", ["C11"], "C11.poly.large", "Polygon::area / Polygon::perimeter", RN + "n_c11_poly_large"),
     native("n_c11_props_model", ["C11", "C08", "C09"], "C11.props", "EnergyProps::from(&Model) / Model::global_ventilation_rate / Space::area / Space::height_net / Wall::area_net", RN + "n_c11_props_model"),
     native("n_c11_scaling", ["C11"], "C11.scaling", "EnergyProps::from(&Model)", RN + "n_c11_scaling"),
     native("n_c15_check", ["C15"], "C15.check", "check(&Model) / EnergyIndicators::compute", RN + "n_c15_check"),
@@ -144,7 +145,7 @@ OBLIGATIONS = [
     native("n_c06_dispatch", ["C06"], "C06.dispatch", "Wall::u_value(&Model) / Space::ua_of_external_and_ground_surfaces / Model::global_ventilation_rate", TR + "n_c06_dispatch"),
     native("n_c06_ground", ["C06", "C14"], "C06.ground", "Wall::u_value (GROUND) / u_value_gnd_slab / u_value_gnd_wall / Space::slab_char_dim / slab_d_t / slab_psi_gnd_ext", TR + "n_c06_ground"),
     native("n_c07_wincons_value", ["C07"], "C07.u.value", "WinCons::u_value / g_glwi / g_glshwi", TR + "n_c07_wincons_value"),
-    native("n_c07_defaults", ["C07"], "C07.defaults", "EnergyProps::from(&Model) (WinConsProps) / KData::from / QSolJulData::from", TR + "n_c07_defaults"),
+    native("n_c07_defaults", ["C07", "C10", "C08"], "C07.defaults", "EnergyProps::from(&Model) (WinConsProps) / KData::from / QSolJulData::from", TR + "n_c07_defaults"),
     native("n_c20_sun_position", ["C20"], "C20.sunpos", "climate::solar::altitude_sol_from_data / azimuth_sol_from_data / sun_position", "verif_climate::n::n_c20_sun_position", pkg="climate"),
     native("n_c20_incidence", ["C20"], "C20.incidence", "climate::solar::angle_sol_surf", "verif_climate::n::n_c20_incidence", pkg="climate"),
     native("n_c20_radiation_identities", ["C20"], "C20.radiation", "climate::radiation_for_surface", "verif_climate::n::n_c20_radiation_identities", pkg="climate"),
